@@ -309,3 +309,89 @@ def c17_frame_stack(ctx, layout, times, payload):
         ctx.ensure(f"image {n}: pixel data and metadata exactly as they were", _same_deep(im, snap))
         ctx.ensure(f"image {n}: date / time lists and series bookkeeping exactly as they were", im.date == date and im.time == time and im.time_num == tn and im.series == ser)
     ctx.ensure("result is a new series with all time steps", out is not imgs[0] and out.series and out.time_num == sum(max(int(x), 1) for x in layout.split("-")))
+
+
+# ---- caller-owned containers other than the images (roi arrays, lists, option dictionaries, parameter vectors) --------------------
+
+def _snap_obj(o):
+    return copy.deepcopy(o)
+
+
+def _eq_obj(o, s):
+    if isinstance(s, np.ndarray):
+        return isinstance(o, np.ndarray) and type(o) is type(s) and o.dtype == s.dtype and o.shape == s.shape and bool(np.array_equal(o, s))
+    if isinstance(s, (list, tuple)):
+        return type(o) is type(s) and len(o) == len(s) and all(_eq_obj(x, y) for x, y in zip(o, s))
+    if isinstance(s, dict):
+        return isinstance(o, dict) and list(o.keys()) == list(s.keys()) and all(_eq_obj(o[k], s[k]) for k in s)
+    if isinstance(s, darsia.Image):
+        return isinstance(o, darsia.Image) and _same_deep(o, _deep(s))
+    if callable(s) and not hasattr(s, "__dict__"):
+        return True
+    if hasattr(s, "__dict__") and not isinstance(s, type) and type(s).__eq__ is object.__eq__:
+        return type(o) is type(s) and _eq_obj(vars(o), vars(s))
+    try:
+        return bool(o == s)
+    except Exception:
+        return o is s
+
+
+def _arg_forms():
+    """name -> (make_args(rng, a, b) -> list of caller-owned objects, call(a, b, *args))"""
+    F = {}
+    for where, box in (("inside", [[1, 2], [5, 9]]), ("touching", [[0, 0], [8, 12]]), ("outside", [[-2, 3], [20, 30]]), ("outside-low", [[-3, -1], [4, 5]])):
+        F[f"subregion-voxelarray-{where}"] = (lambda rng, a, b, box=box: [darsia.make_voxel(np.array(box))], lambda a, b, roi: a.subregion(roi))
+    for where, box in (("inside", [[0.1, 0.2], [0.8, 1.1]]), ("outside", [[-0.5, 0.2], [3.0, 7.0]])):
+        F[f"subregion-coordinatearray-{where}"] = (lambda rng, a, b, box=box: [darsia.make_coordinate(np.array(box))], lambda a, b, roi: a.subregion(roi))
+    F["subregion-slices"] = (lambda rng, a, b: [(slice(1, 5), slice(2, 20))], lambda a, b, roi: a.subregion(roi))
+    F["stack-list"] = (lambda rng, a, b: [[a, b]], lambda a, b, lst: darsia.stack(lst))
+    F["superpose-list"] = (lambda rng, a, b: [[a, b]], lambda a, b, lst: darsia.superpose(lst))
+    F["bounding_box"] = (lambda rng, a, b: [np.array([[1, 2], [5, 7]]), (8, 12)], lambda a, b, pts, mx: darsia.bounding_box(pts, padding=1, max_size=mx))
+    F["random_patches"] = (lambda rng, a, b: [a.img > 0.2], lambda a, b, mask: darsia.random_patches(mask, 2, 3))
+    F["ctor-containers"] = (lambda rng, a, b: [a.img.copy(), [1.0, 1.5], [0.25, 2.0]],
+                            lambda a, b, arr, dims, org: darsia.Image(arr, space_dim=2, scalar=True, dimensions=dims, origin=org))
+    F["ctor-series-times"] = (lambda rng, a, b: [np.stack([a.img, b.img], axis=2), [1.0, 1.5], [0.5, 2.5]],
+                              lambda a, b, arr, dims, times: darsia.Image(arr, space_dim=2, scalar=True, series=True, dimensions=dims, time=times))
+    F["weight-array-vector"] = (lambda rng, a, b: [darsia.Image(np.stack([a.img, b.img], axis=2), space_dim=2, scalar=False, dimensions=[1.0, 1.5]), np.array([0.5, 2.0])],
+                                lambda a, b, v, w: darsia.weight(v, w))
+    F["geometry-ctor"] = (lambda rng, a, b: [[8, 12], [1.0, 1.5]], lambda a, b, nv, dims: darsia.Geometry(space_dim=2, num_voxels=nv, dimensions=dims).integrate(a))
+    F["extruded-geometry-depth-array"] = (lambda rng, a, b: [0.5 + rng.random((8, 12))],
+                                          lambda a, b, depth: darsia.ExtrudedGeometry(expansion=depth, space_dim=2, num_voxels=(8, 12), dimensions=[1.0, 1.5]).integrate(a))
+    F["porous-geometry-porosity-image"] = (lambda rng, a, b: [b.copy()],
+                                           lambda a, b, por: darsia.PorousGeometry(porosity=por, space_dim=2, num_voxels=(8, 12), dimensions=[1.0, 1.5]).integrate(a))
+    F["linear-model-params"] = (lambda rng, a, b: [np.array([2.0, 0.5]), a.img.copy()],
+                                lambda a, b, prm, sig: (lambda m: (m.update_model_parameters(prm), m(sig))[1])(darsia.LinearModel()))
+    F["combined-model-list"] = (lambda rng, a, b: [[darsia.LinearModel(scaling=2.0), darsia.ClipModel(**{"min value": 0.0, "max value": 1.0})], a.img.copy()],
+                                lambda a, b, models, sig: darsia.CombinedModel(models)(sig))
+    F["wasserstein-options"] = (lambda rng, a, b: [{"num_iter": 3, "tol_residual": 1e-6, "verbose": False, "linear_solver_options": {"rtol": 1e-8}, "formulation": "pressure"}],
+                                lambda a, b, opt: darsia.wasserstein_distance(a, b, method="newton", options=opt))
+    F["wasserstein-bregman-options"] = (lambda rng, a, b: [{"num_iter": 3, "verbose": False, "L": 1.0, "bregman_update": lambda it: it % 2 == 0}],
+                                        lambda a, b, opt: darsia.wasserstein_distance(a, b, method="bregman", options=opt))
+    F["resize-shape-list"] = (lambda rng, a, b: [[4, 6]], lambda a, b, shp: darsia.resize(a, shape=tuple(shp)))
+    F["time_interval-slice"] = (lambda rng, a, b: [darsia.stack([a, b]), slice(0, 1)], lambda a, b, ser, sl: ser.time_interval(sl))
+    return F
+
+
+@ob("C17.frame_args", kind="B", cases=[dict(form=k) for k in _arg_forms()], funcs=FUNCS, samples=(1, 3),
+    cite="leave every argument (pixel data, metadata and caller-owned containers such as a dimensions list passed to a constructor) exactly as it was",
+    note="bounded: caller-owned containers other than the images themselves (roi point arrays inside / touching / outside the image, lists, option dictionaries, parameter vectors)")
+def c17_frame_args(ctx, form):
+    import contextlib, io, warnings
+    rng = np.random.default_rng(ctx.rng.randrange(1 << 30))
+    mk = lambda: darsia.ScalarImage(0.05 + rng.random((8, 12)), dimensions=[1.0, 1.5], name="x")
+    a, b = mk(), mk()
+    b.img = b.img / b.img.sum() * a.img.sum()
+    make, call = _arg_forms()[form]
+    args = make(rng, a, b)
+    sa, sb = _deep(a), _deep(b)
+    snaps = [_snap_obj(x) for x in args]
+    ids = [[id(e) for e in x] if isinstance(x, list) else None for x in args]
+    with contextlib.redirect_stdout(io.StringIO()), warnings.catch_warnings():
+        warnings.simplefilter("ignore")
+        call(a, b, *args)
+    for k, (x, sn) in enumerate(zip(args, snaps)):
+        ctx.ensure(f"{form}: argument #{k} ({type(x).__name__}) exactly as it was", _eq_obj(x, sn))
+        if ids[k] is not None:
+            ctx.ensure(f"{form}: list argument #{k} still holds the same objects", [id(e) for e in x] == ids[k])
+    ctx.ensure(f"{form}: image a exactly as it was", _same_deep(a, sa))
+    ctx.ensure(f"{form}: image b exactly as it was", _same_deep(b, sb))
